@@ -352,10 +352,14 @@ ANCHORS = {
     '_mutex': ['^babylon::coroutine::Futex(<|$)'],
     '_value': ['^babylon::coroutine::Futex(<|$)', '^babylon::coroutine::Promise(<|$)'],
     'add_awaiter': ['^babylon::coroutine::Futex(<|$)'],
+    'awaiter': ['^babylon::coroutine::BasicPromise(<|$)'],
+    'awaiter_inplace_resumable': ['^babylon::coroutine::BasicPromise(<|$)'],
     'do_cancel': ['^babylon::coroutine::BasicCancellable(<|$)'],
     'do_resume': ['^babylon::coroutine::BasicCancellable(<|$)'],
     'finish_released': ['^babylon::DepositBox(<|$)'],
+    'inplace_resumable': ['^babylon::coroutine::BasicPromise(<|$)'],
     'resume_awaiter': ['^babylon::coroutine::BasicPromise(<|$)'],
     'set_awaiter': ['^babylon::coroutine::BasicPromise(<|$)'],
     'take_released': ['^babylon::DepositBox(<|$)'],
+    'unsafe_get': ['^babylon::DepositBox(<|$)'],
 }
